@@ -240,8 +240,9 @@ func (f EncodingFunc) Encode(v any) error { return f(v) }
 
 // SetContentType initializes the response Content-Type header given a MIME
 // type. If the Content-Type header is already set and the MIME type is
-// "application/json" or "application/xml" then SetContentType appends a suffix
-// to the header ("+json" or "+xml" respectively).
+// "application/json" or "application/xml" then SetContentType makes the
+// structured syntax suffix of the header media type "+json" or "+xml"
+// respectively (appending it or replacing a different suffix).
 func SetContentType(w http.ResponseWriter, ct string) {
 	h := w.Header().Get("Content-Type")
 	if h == "" {
@@ -254,14 +255,25 @@ func SetContentType(w http.ResponseWriter, ct string) {
 		w.Header().Set("Content-Type", ct)
 		return
 	}
-	if strings.Contains(h, "+") {
+	if _, _, err := mime.ParseMediaType(h); err != nil {
+		// malformed header: announce the actual encoding
+		w.Header().Set("Content-Type", ct)
 		return
 	}
 	suffix := "+json"
 	if ct == "application/xml" {
 		suffix = "+xml"
 	}
-	w.Header().Set("Content-Type", h+suffix)
+	// The suffix announces the encoding of the body: it belongs to the media
+	// type (not to its parameters) and must agree with the encoder.
+	mt, params := h, ""
+	if i := strings.Index(h, ";"); i >= 0 {
+		mt, params = strings.TrimSpace(h[:i]), h[i:]
+	}
+	if i := strings.LastIndex(mt, "+"); i >= 0 {
+		mt = mt[:i]
+	}
+	w.Header().Set("Content-Type", mt+suffix+params)
 }
 
 func newTextEncoder(w io.Writer, ct string) Encoder {
